@@ -278,6 +278,33 @@ def parse_top_ports(rtlil, top="top"):
     return ports
 
 
+def parse_top_cells(rtlil, top="top"):
+    """{cell name: [wire names mentioned on the right-hand side of its connections]} for the cells of the top module"""
+    m = re.search(r"^module \\%s\s*$" % re.escape(top), rtlil, re.M)
+    if not m:
+        raise ParseError("no top module")
+    body = rtlil[m.end():]
+    body = body[:re.search(r"^end\s*$", body, re.M).start()]
+    cells, cur = {}, None
+    for line in body.splitlines():
+        mm = re.match(r"\s*cell\s+\S+\s+\\(\S+)\s*$", line)
+        if mm:
+            cur = cells.setdefault(mm.group(1), [])
+            continue
+        if re.match(r"\s*end\s*$", line):
+            cur = None
+            continue
+        mm = re.match(r"\s*connect\s+\\\S+\s+(.*)$", line)
+        if mm and cur is not None:
+            cur += re.findall(r"\\(\S+)", mm.group(1))
+    return cells
+
+
+def strip_dedup(name):
+    """netlist names are made unique with a $<number> suffix"""
+    return re.sub(r"\$\d+$", "", name)
+
+
 def bit_names(name, width):
     return [name] if width == 1 else [f"{name}[{i}]" for i in range(width)]
 
